@@ -119,9 +119,13 @@ def check_error_opaque(out, facts):
                 bad += 1
             if k == 'bin' and node.get('op') in ('Eq', 'Ne'):
                 lt = (node.get('l') or {}).get('ty') or ''
-                if 'error::Error' in lt and not lt.startswith('core::result'):
-                    out.fail('R20.3', 'comparison of Errors in %s [%s]' % (fkey(f), cfg), 'codec code compares Error values', node.get('loc', f['loc']))
+                if 'error::Error' in lt:
+                    out.fail('R20.3', 'comparison of Errors in %s [%s]' % (fkey(f), cfg), 'codec code compares Error values (directly or inside a Result): '
+                             'without chain-error every Error is equal to every other', node.get('loc', f['loc']))
                     bad += 1
+            if k == 'call' and node.get('name') in ('eq', 'ne', 'partial_cmp', 'cmp', 'hash') and any('error::Error' in (a.get('ty') or '') for a in (node.get('args') or []) if isinstance(a, dict)):
+                out.fail('R20.3', 'comparison of Errors in %s [%s]' % (fkey(f), cfg), 'codec code compares Error values through %s' % node.get('name'), node.get('loc', f['loc']))
+                bad += 1
             n += 1
     out.ob('R20.3', 'no inspection of Error values outside the error module [%s]' % cfg, bad == 0, '%d site(s)' % bad, '-')
     out.count('THIR nodes scanned for Error inspection', n)
@@ -131,7 +135,7 @@ def run(cx, out):
     out.rule('R20.1', 'bodies present in two configurations are identical except for the audited configuration-dependent set')
     out.rule('R20.2', 'optional features only add items of the audited optional families')
     out.rule('R20.3', 'no code outside the error module inspects an Error value')
-    cfgs = lib_cfgs(cx, quick=('A', 'B', 'D'), thorough=('A', 'B', 'C', 'D', 'E'))
+    cfgs = lib_cfgs(cx, quick=('A', 'B', 'D', 'E'), thorough=('A', 'B', 'C', 'D', 'E'))
     F = {c: cx.facts(c) for c in cfgs}
     for c in cfgs:
         unit(out, F[c])
@@ -147,3 +151,10 @@ def run(cx, out):
     out.floor('R20.1', 'bodies compared across configurations', n, 900)
     for c in cfgs:
         check_error_opaque(out, F[c])
+    # the audited configuration-dependent items may differ in spelling, not in effect: the Output sink of each configuration
+    # (Vec<u8> without std, the blanket io::Write impl with it) appends exactly the bytes it is given (rule of C07)
+    from . import c07
+    out.rule('R07.3', 'Output impls append all given bytes; push_byte == write(&[b]) (rule of C07: the two configuration-dependent sinks have the same effect)')
+    for c in cfgs:
+        unit(out, F[c])
+        c07.check_sinks(out, F[c])
